@@ -22,6 +22,21 @@ M: transcription of libcoap's server-session bookkeeping
    coap_check_async, of the retransmission loop and of the idle reclamation compare with that argument, everything that
    stamps a time (`coap_ticks()` in the send path, in coap_retransmit) reads the clock `St.now`, which is ≥ the argument.
    Every object is a token (a `Nat` serial) in an ALLOCATION LEDGER (`alloc id` / `free id`, chronological).
+   STREAM sessions (CoAP over TCP, RFC 8323; `COAP_PROTO_RELIABLE`):
+     src/coap_net.c      coap_accept_endpoint → coap_new_server_session (src/coap_session.c): NO lookup, NO idle accounting,
+                         coap_make_session, SESSIONS_ADD, SERVER_SESSION_NEW, CSM sent, `last_rx_tx = now`;
+                         coap_io_do_epoll_lkd for a session socket: `reference; coap_read_session; release`, prepare pass;
+                         coap_read_session, stream branch: `last_rx_tx = now` when bytes were read, the header is collected
+                         in `read_header` (`partial_read` counts), THEN `session->partial_pdu = coap_pdu_init(…)`; when the
+                         last byte has arrived the PDU is detached (`partial_pdu = NULL; partial_read = 0`), dispatched and
+                         deleted; a read of 0 bytes / an error: `coap_session_disconnected_lkd(NOT_DELIVERABLE)`
+     src/coap_session.c  coap_session_disconnected_lkd on a reliable session: additionally `state = NONE`,
+                         `coap_delete_pdu(partial_pdu); partial_pdu = NULL; partial_read = 0`, the socket is closed;
+                         coap_session_mfree: `if (session->partial_pdu) coap_delete_pdu(session->partial_pdu)`
+     src/coap_io.c       the reclamation test: `ref == 0 && delayqueue == NULL && (last_rx_tx + session_timeout <= now ||
+                         state == COAP_SESSION_STATE_NONE)` — a closed stream session is reclaimed by the next pass once
+                         nothing references it, and NOT before
+     src/coap_net.c      coap_send_pdu: `state == NONE` on a server session → -1: nothing is written, `last_rx_tx` stays
 
 S: `Peer ⇀ session` (partial injective map, `lookup`), `ref s = #holders s`.
 
@@ -32,6 +47,9 @@ SPEC DECISION D13 : "stays valid while the application refers to it" is scoped t
                     must not use session pointers after coap_free_context().  "Everything is released" has priority.
 SPEC DECISION D14 : the application only releases references it holds (`appRelease` without a held reference is skipped
                     by the harness and is a no-op in M): releasing somebody else's reference is outside the property.
+SPEC DECISION D15 : "the oldest idle one when the idle-session limit is reached" is the rule of coap_endpoint_get_session,
+                    i.e. of sessions created from datagrams; accepting a stream connection (coap_new_server_session) does
+                    no idle accounting and evicts nothing (a stream session is bound to its connection).
 -/
 namespace Coap.Sessions
 
@@ -100,7 +118,10 @@ structure Sess where
   last : Nat                 -- last_rx_tx
   conActive : Nat
   delayq : Nat               -- length of session->delayqueue (entries hold NO reference: node->session = NULL)
-  notes : Nat                -- notifications sent on this session so far (each takes a fresh message id of the session)
+  notes : Nat                -- notifications sent on this session so far (each takes a fresh message id of the session);
+                             -- on a stream session: every message with a non-empty, non-signalling code written to it
+  closed : Bool := false     -- `state == COAP_SESSION_STATE_NONE`: a stream session whose connection is gone
+  pend : Nat := 0            -- `session->partial_read`: bytes of an unfinished message received so far
   deriving DecidableEq, Repr
 
 inductive SEvent where
@@ -115,6 +136,7 @@ structure St where
   eps : List (Nat × Nat) := []             -- ctx->endpoint list (LL_PREPEND order): (local port, proto)
   sessions : List Sess := []               -- all endpoints' tables, creation order (= uthash iteration order)
   holders : List Holder := []
+  partials : List (Nat × Nat) := []        -- `session->partial_pdu` of the stream sessions: (ledger id of the coap_pdu_t, session)
   resAlive : List Nat := []                -- observable resources still registered
   dirty : List Nat := []                   -- resources with r->dirty set (then ctx->observe_pending is set as well)
   ctxObjs : List Nat := []                 -- ledger ids of context, endpoints, resources
@@ -129,6 +151,15 @@ def COAP_DEFAULT_SESSION_TIMEOUT : Nat := 300
 def TICKS_PER_SECOND : Nat := 1000
 def ACK_TIMEOUT_TICKS : Nat := 2000          -- coap_calc_timeout(session, r = 0)
 def MAX_RETRANSMIT : Nat := 4
+def COAP_PROTO_UDP : Nat := 1
+def COAP_PROTO_TCP : Nat := 3
+/-- `COAP_PROTO_RELIABLE(proto)`: TCP, TLS, WS, WSS -/
+def Peer.reliable (p : Peer) : Bool := p.proto ≥ COAP_PROTO_TCP
+/-- the request a stream peer may send in two parts (harness: GET /r, token [S], 20 bytes payload): 27 bytes, of which
+    `coap_pdu_parse_header_size` + token-length extension = 3 are the header that is collected in `session->read_header`
+    BEFORE `session->partial_pdu` is allocated -/
+def PART_LEN : Nat := 27
+def PART_HDR : Nat := 3
 
 /-- S: the number of holders of a session (application references, observer entries, async entries, queued messages) -/
 def St.holds (st : St) (sid : Nat) : Nat := st.holders.countP (fun h => h.sid == sid)
@@ -169,7 +200,19 @@ def St.dropHolder (st : St) (h : Holder) : St :=
 
 def St.dropHolders (st : St) (hs : List Holder) : St := hs.foldl St.dropHolder st
 
+/-- `session->partial_pdu = coap_pdu_init(…)` in coap_read_session once the header of a message is complete -/
+def St.addPartial (st : St) (sid : Nat) : St :=
+  { st with partials := st.partials ++ [(st.next, sid)], ledger := st.ledger ++ [.alloc st.next], next := st.next + 1 }
+
+/-- `if (session->partial_pdu) coap_delete_pdu(session->partial_pdu)` (coap_session_mfree), with `partial_pdu = NULL`
+    (coap_session_disconnected_lkd, and coap_read_session when the message is complete and has been dispatched) -/
+def St.dropPartial (st : St) (sid : Nat) : St :=
+  { st with partials := st.partials.filter (fun x => x.2 != sid),
+            ledger := st.ledger ++ (st.partials.filter (fun x => x.2 == sid)).map fun x => .free x.1 }
+
 /-- `coap_handle_event_lkd(ctx, COAP_EVENT_SERVER_SESSION_DEL, s); coap_session_free(s);`
+    coap_session_free → coap_session_mfree releases what hangs off the session (here: the partly received PDU), then the
+    session is unlinked and freed.
     The three call sites (eviction in coap_endpoint_get_session, reclamation in coap_io_prepare_io_lkd,
     coap_free_endpoint_lkd) have each tested `s->ref == 0` on this very session immediately before (the last one
     forces it since the fix), so the `if (session->ref) return;` inside coap_session_free never fires after the event
@@ -179,13 +222,15 @@ def St.reclaim (st : St) (sid : Nat) : St :=
   | none => st
   | some s =>
     if s.ref ≠ 0 then st
-    else { st with events := st.events ++ [SEvent.del sid],
-                   sessions := st.sessions.filter (fun t => t.sid ≠ sid), ledger := st.ledger ++ [.free sid] }
+    else { (st.dropPartial sid) with
+             events := st.events ++ [SEvent.del sid],
+             sessions := st.sessions.filter (fun t => t.sid ≠ sid),
+             ledger := (st.dropPartial sid).ledger ++ [.free sid] }
 
 /-- `coap_make_session` + SESSIONS_ADD + COAP_EVENT_SERVER_SESSION_NEW -/
 def St.newSession (st : St) (p : Peer) : St :=
   { st with
-    sessions := st.sessions ++ [⟨st.next, st.nsess, p, 0, st.now, 0, 0, 0⟩],
+    sessions := st.sessions ++ [⟨st.next, st.nsess, p, 0, st.now, 0, 0, 0, false, 0⟩],
     ledger := st.ledger ++ [.alloc st.next], events := st.events ++ [.new st.next],
     next := st.next + 1, nsess := st.nsess + 1 }
 
@@ -251,15 +296,20 @@ def St.retransmit (st : St) (h : Holder) : St :=
     else st
   | _ => st
 
+/-- `s->last_rx_tx + session_timeout <= now || s->state == COAP_SESSION_STATE_NONE` -/
+def Sess.expired (s : Sess) (timeoutTicks now : Nat) : Bool := s.last + timeoutTicks ≤ now || s.closed
+
 /-- the reclamation test of coap_io_prepare_io_lkd for one session of the SESSIONS_ITER_SAFE walk:
-    `s->ref == 0 && s->delayqueue == NULL && s->last_rx_tx + session_timeout <= now` with the `now` ARGUMENT of the pass
+    `s->ref == 0 && s->delayqueue == NULL && (s->last_rx_tx + session_timeout <= now || s->state == COAP_SESSION_STATE_NONE)`
+    with the `now` ARGUMENT of the pass
     (the addition cannot wrap: ticks are 64 bit milliseconds).  `last_rx_tx` may be LATER than `now` — the session was
-    used after the caller read the clock — and then the test is simply false. -/
+    used after the caller read the clock — and then the first disjunct is simply false.  `ref == 0 && delayqueue == NULL`
+    guards BOTH disjuncts: a closed stream session that is still referenced stays. -/
 def St.reclaimStep (st : St) (now : Nat) (sid : Nat) : St :=
   match st.getSess sid with
   | none => st
   | some s =>
-    if s.idle && s.last + st.timeoutTicks ≤ now then st.reclaim sid
+    if s.idle && s.expired st.timeoutTicks now then st.reclaim sid
     else
       -- "Make sure the session object is not deleted in any callbacks": reference … release
       (st.updSess sid Sess.reference).updSess sid Sess.release
@@ -313,7 +363,8 @@ def St.fireAsync (st : St) (now : Nat) (h : Holder) : St :=
   | .asyncD due dur =>
     if h ∈ st.holders && due ≠ 0 && due ≤ now then
       let st1 := { st with now := st.now + dur }
-      (st1.updSess h.sid fun s => { s with last := st1.now, notes := s.notes + 1 }).dropHolder h
+      -- coap_send_pdu on a closed stream session: -1, nothing is written
+      (st1.updSess h.sid fun s => if s.closed then s else { s with last := st1.now, notes := s.notes + 1 }).dropHolder h
     else st
   | _ => st
 
@@ -357,6 +408,10 @@ inductive Event where
   | appRef (p : Peer)
   | appRelease (p : Peer)
   | disconnect (p : Peer)
+  | connect (p : Peer)       -- a stream peer connects (accept) and sends its CSM
+  | partialRx (p : Peer) (c : Nat)  -- a stream peer sends only the first `c` (0 < c < PART_LEN) bytes of a request
+  | restRx (p : Peer)        -- … and the rest of it
+  | peerClose (p : Peer)     -- a stream peer closes its connection: the server reads EOF
   | delResource (k : Nat)
   | changed (k : Nat)        -- application: coap_resource_notify_observers(/ok)
   | noteRst (p : Peer) (j : Nat)   -- peer answers the notification it received j-th from last (on its session) with RST
@@ -494,11 +549,46 @@ def St.silent (st : St) (sid : Nat) : Req → Bool
   | .slow _ _ => (st.findHolder sid isDelayed).isSome
   | _ => false
 
+/-- the same for a message on a stream: a repeated GET /a is not answered either (there is no ACK to repeat) -/
+def St.silentStream (st : St) (sid : Nat) : Req → Bool
+  | .slow _ _ => (st.findHolder sid isDelayed).isSome
+  | .async => (st.findHolder sid isAsyncPlain).isSome
+  | _ => false
+
+/-- requests the handlers of the harness answer at once (2.05): the peer of a stream session counts the answer -/
+def Req.answered : Req → Bool
+  | .plain => true
+  | .obsReg _ _ _ => true
+  | .obsDereg _ _ _ => true
+  | _ => false
+
+/-- `coap_session_disconnected_lkd(session, COAP_NACK_NOT_DELIVERABLE)`: delayqueue purged, coap_delete_observers,
+    `state = NONE` on a reliable session (UDP: ESTABLISHED), con_active = 0, the partly received PDU is deleted,
+    coap_cancel_session_messages; a reliable session's socket is closed.  Async entries STAY. -/
+def St.disconnectSess (st : St) (s : Sess) : St :=
+  let st1 := st.dropHolders (st.holdersOf s.sid isAnyObs)
+  let st2 := st1.updSess s.sid fun t =>
+    { t with conActive := 0, delayq := 0, closed := t.closed || s.peer.reliable, pend := 0 }
+  let st3 := st2.dropPartial s.sid
+  st3.dropHolders (st3.holdersOf s.sid isNode)
+
 def St.step (st : St) (e : Event) : St × Outcome :=
   if st.freed then (st, .skip) else
   match e with
   | .rx p r =>
     if st.rxSkip p r then (st, .skip) else
+    if p.reliable then
+      -- a whole message on a stream peer's connection (the peer has one, is not in the middle of another message)
+      match st.lookup p with
+      | none => (st, .skip)
+      | some s =>
+        if s.closed || s.pend ≠ 0 then (st, .skip) else
+        -- coap_io_do_epoll_lkd: reference; coap_read_session: `last_rx_tx = now`, the PDU is collected in partial_pdu,
+        -- detached, dispatched, deleted; release; prepare pass.  The 2.05 is written to the stream.
+        let st1 := st.updSess s.sid fun t =>
+          { t with last := st.now, notes := if r.answered then t.notes + 1 else t.notes }
+        ((st1.serve s.sid r).prepareIo, if st1.silentStream s.sid r then .ok else .handled s.sid)
+    else
     let (st1, sid) := st.getSession p
     -- coap_io_do_epoll_lkd ends with coap_io_prepare_epoll_lkd
     ((st1.serve sid r).prepareIo, if st1.silent sid r then .ok else .handled sid)
@@ -541,11 +631,40 @@ def St.step (st : St) (e : Event) : St × Outcome :=
   | .disconnect p =>
     match st.lookup p with
     | none => (st, .skip)
+    | some s => (st.disconnectSess s, .ok)
+  | .connect p =>
+    if !p.reliable || !((p.lport, p.proto) ∈ st.eps) then (st, .skip) else
+    match st.lookup p with
+    | some _ => (st, .skip)                          -- the session of the peer's previous connection still exists
+    | none =>
+      -- accept: coap_new_server_session (`last_rx_tx = now`), prepare pass; the peer's CSM: read event
+      -- (`last_rx_tx = now` — the clock may have moved on in the pass), prepare pass
+      let st1 := (st.newSession p).prepareIo
+      ((st1.updSess st.next fun t => { t with last := st1.now }).prepareIo, .ok)
+  | .partialRx p c =>
+    match st.lookup p with
+    | none => (st, .skip)
     | some s =>
-      -- delayqueue purged, coap_delete_observers, con_active = 0, coap_cancel_session_messages
-      let st1 := st.dropHolders (st.holdersOf s.sid isAnyObs)
-      let st2 := st1.updSess s.sid fun t => { t with conActive := 0, delayq := 0 }
-      (st2.dropHolders (st2.holdersOf s.sid isNode), .ok)
+      if !p.reliable || s.closed || s.pend ≠ 0 || c = 0 || c ≥ PART_LEN then (st, .skip) else
+      -- coap_read_session: `last_rx_tx = now`; the first PART_HDR bytes go to `read_header`, with the last of them
+      -- `session->partial_pdu = coap_pdu_init(…)`, the following bytes are copied into it; `partial_read = c`
+      let st1 := st.updSess s.sid fun t => { t with last := st.now, pend := c }
+      ((if c ≥ PART_HDR then st1.addPartial s.sid else st1).prepareIo, .ok)
+  | .restRx p =>
+    match st.lookup p with
+    | none => (st, .skip)
+    | some s =>
+      if !p.reliable || s.closed || s.pend = 0 then (st, .skip) else
+      -- the message is complete: `partial_pdu = NULL; partial_read = 0`, coap_dispatch (GET /r: 2.05), coap_delete_pdu
+      let st1 := st.updSess s.sid fun t => { t with last := st.now, pend := 0, notes := t.notes + 1 }
+      ((st1.dropPartial s.sid).prepareIo, .handled s.sid)
+  | .peerClose p =>
+    match st.lookup p with
+    | none => (st, .skip)
+    | some s =>
+      if !p.reliable || s.closed then (st, .skip) else
+      -- coap_read_session: the read fails (EOF), coap_session_disconnected_lkd(NOT_DELIVERABLE); prepare pass
+      ((st.disconnectSess s).prepareIo, .ok)
   | .delResource k =>
     if k ∈ st.resAlive then
       -- coap_free_resource: every observer is sent a 4.04 NON notification (fresh message id, last_rx_tx = now), then
